@@ -24,7 +24,9 @@ Lemma andb_true_r a b : a && b = true -> b = true.
 Proof. destruct a; [auto|discriminate]. Qed.
 
 Ltac split_andb H :=
-  repeat (let H' := fresh "Hb" in apply andb_prop in H; destruct H as [H H']).
+  repeat match goal with
+  | Hx : _ && _ = true |- _ => let H' := fresh "Hb" in apply andb_prop in Hx; destruct Hx as [Hx H']
+  end.
 
 Lemma valid_prepare_round c m h r root : valid_prepare c m h r root = true -> c_round (co m) = r.
 Proof.
